@@ -116,8 +116,8 @@ def _worker(args):
 
 def check(tier):
     ck = core.Check("C13", tier)
-    shards, n = (16, 2000) if tier == "quick" else (64, 6000)
-    res = core.pmap(_worker, [(ck.seed, i, n, "vf") for i in range(shards)])
+    shards, n = (16, 2000) if tier == "quick" else (160, 6000)
+    res = core.pmap(_worker, [(ck.seed, i, n, "vf" if i % 4 != 3 else "vf-small") for i in range(shards)])
     counters = sem.merge(ck, res)
     ck.cov["rule"] = ("cases: one grammar object (pool/random/mutant/error grammars, names and arrays of the definition "
                       "poisoned and freed right after the defining call), 1-3 parses with random flags (one/all parses, "
